@@ -1161,3 +1161,175 @@ func c17r7(rc *core.RC) {
 		rc.Check(int(got) == rfc[l], fmt.Sprintf("decoder.unescapeMap[%q]/rfc", rune(l)), um.Pos, "unescapeMap maps \\%c to 0x%02x; RFC 8259 says 0x%02x", rune(l), got, rfc[l])
 	}
 }
+
+// ---- C17.R8 two \u escapes are taken as one character only when they are a high and a low surrogate ----
+
+// Wherever the decoder combines two \u escapes into one rune — by utf16.DecodeRune or by the
+// hand-written arithmetic of C17.R5 — the second escape may be consumed only for a valid pair. Either
+// the result of utf16.DecodeRune is compared with unicode.ReplacementChar (the documented way to
+// learn that the two did not pair up), or the conditions on the path to the combination, evaluated
+// for every class of first and second escape (non-surrogate, lowest/highest high, lowest/highest
+// low, unreadable), hold only when the first is a high and the second a low surrogate.
+func c17r8(rc *core.RC) {
+	p := rc.P
+	n := 0
+	for _, fd := range p.Funcs("decoder") {
+		if fd.Body == nil {
+			continue
+		}
+		info := p.Info(fd)
+		fn := p.FuncName(fd)
+		type site struct {
+			node   ast.Node
+			a, b   types.Object
+			decode *ast.CallExpr
+		}
+		var sites []site
+		ast.Inspect(fd.Body, func(m ast.Node) bool {
+			switch x := m.(type) {
+			case *ast.CallExpr:
+				if core.CalleeName(info, x) == "utf16.DecodeRune" && len(x.Args) == 2 {
+					a, b := core.ObjOf(info, x.Args[0]), core.ObjOf(info, x.Args[1])
+					if a != nil && b != nil {
+						sites = append(sites, site{x, a, b, x})
+					}
+				}
+			case *ast.AssignStmt:
+				if len(x.Lhs) != 1 || len(x.Rhs) != 1 {
+					return true
+				}
+				if _, isBin := core.Unparen(x.Rhs[0]).(*ast.BinaryExpr); !isBin {
+					return true
+				}
+				hasHi, hasLo := false, false
+				var vars []types.Object
+				seen := map[types.Object]bool{}
+				ast.Inspect(x.Rhs[0], func(y ast.Node) bool {
+					e, ok := y.(ast.Expr)
+					if !ok {
+						return true
+					}
+					if v, ok := core.ConstInt(info, e); ok {
+						hasHi = hasHi || v == 0xd800
+						hasLo = hasLo || v == 0xdc00
+						return false
+					}
+					if id, ok := e.(*ast.Ident); ok {
+						if v, ok := info.Uses[id].(*types.Var); ok && !v.IsField() && v.Pkg() != nil && v.Parent() != v.Pkg().Scope() && !seen[v] {
+							seen[v] = true
+							vars = append(vars, v)
+						}
+					}
+					return true
+				})
+				if hasHi && hasLo && len(vars) == 2 {
+					sort.Slice(vars, func(i, j int) bool { return vars[i].Pos() < vars[j].Pos() })
+					sites = append(sites, site{x, vars[0], vars[1], nil})
+				}
+			}
+			return true
+		})
+		for k, s := range sites {
+			n++
+			rc.Touch(fn)
+			key := fmt.Sprintf("%s/escape-pair#%d only-for-valid-pairs", fn, k+1)
+			// (A) DecodeRune whose result is compared with the replacement character
+			if s.decode != nil && decodeResultCompared(info, fd, s.decode) {
+				rc.OK(key, s.node.Pos(), "the result of utf16.DecodeRune is compared with unicode.ReplacementChar before the second escape is consumed")
+				continue
+			}
+			// (B) fold the path condition
+			type cond struct {
+				e   ast.Expr
+				pos bool
+			}
+			var conds []cond
+			path := core.PathTo(fd.Body, s.node)
+			for i, pn := range path {
+				ifs, ok := pn.(*ast.IfStmt)
+				if !ok || i+1 >= len(path) {
+					continue
+				}
+				switch path[i+1] {
+				case ast.Node(ifs.Body):
+					conds = append(conds, cond{ifs.Cond, true})
+				case ifs.Else:
+					conds = append(conds, cond{ifs.Cond, false})
+				}
+			}
+			bp := &core.BytePred{P: p}
+			reps := []int64{-1, 0x41, 0xD7FF, 0xD800, 0xDBFF, 0xDC00, 0xDFFF, 0xE000}
+			isHi := func(v int64) bool { return v >= 0xD800 && v <= 0xDBFF }
+			isLo := func(v int64) bool { return v >= 0xDC00 && v <= 0xDFFF }
+			// the two variables: which is first is decided by which assignment of roles never lets an invalid pair through
+			roleOK := func(first, second types.Object) (bool, string) {
+				used := 0
+				for _, a := range reps {
+					for _, b := range reps {
+						env := core.BindAll(map[types.Object]int64{first: a, second: b})
+						all := true
+						for _, c := range conds {
+							bp.Steps = 0
+							v, ok := bp.EvalBool(info, c.e, env)
+							if !ok {
+								continue
+							}
+							used++
+							if v != c.pos {
+								all = false
+								break
+							}
+						}
+						if all && !(isHi(a) && isLo(b)) {
+							return false, fmt.Sprintf("first escape %#x, second %#x reach the combination", a, b)
+						}
+					}
+				}
+				return used > 0, "no condition on the path constrains the two escapes"
+			}
+			ok1, why1 := roleOK(s.a, s.b)
+			ok2, _ := roleOK(s.b, s.a)
+			if ok1 || ok2 {
+				rc.OK(key, s.node.Pos(), "the conditions on the path hold only for a high surrogate followed by a low one")
+			} else {
+				rc.Bad(key, s.node.Pos(), "two escapes are combined into one character although they need not be a high and a low surrogate (%s): the second escape is swallowed and a character of the input is lost", why1)
+			}
+		}
+	}
+	if n < 3 {
+		rc.Unknown("decoder/escape-pair-sites", token.NoPos, "found %d places that combine two \\u escapes (4 confirmed)", n)
+	}
+}
+
+// decodeResultCompared: the call is an operand of ==/!= with the constant 0xFFFD, or its result is
+// bound to a variable that is.
+func decodeResultCompared(info *types.Info, fd *ast.FuncDecl, call *ast.CallExpr) bool {
+	isRepl := func(e ast.Expr) bool { v, ok := core.ConstInt(info, e); return ok && v == 0xFFFD }
+	var res types.Object
+	found := false
+	ast.Inspect(fd.Body, func(m ast.Node) bool {
+		switch x := m.(type) {
+		case *ast.AssignStmt:
+			for i, r := range x.Rhs {
+				if core.Unparen(r) == ast.Expr(call) && i < len(x.Lhs) && len(x.Lhs) == len(x.Rhs) {
+					res = core.ObjOf(info, x.Lhs[i])
+				}
+			}
+		case *ast.BinaryExpr:
+			if x.Op == token.EQL || x.Op == token.NEQ {
+				for _, pair := range [][2]ast.Expr{{x.X, x.Y}, {x.Y, x.X}} {
+					if isRepl(pair[1]) {
+						if core.Unparen(pair[0]) == ast.Expr(call) {
+							found = true
+						}
+						if res != nil && core.ObjOf(info, pair[0]) == res {
+							found = true
+						}
+					}
+				}
+			}
+		}
+		return true
+	})
+	return found
+}
